@@ -3258,6 +3258,12 @@ void DGXMLScanner::scanCharData(XMLBuffer& toUse)
 
                     if (scanEntityRef(false, nextCh, secondCh, escaped) != EntityExp_Returned)
                     {
+                        //  An element declared EMPTY may not even contain a
+                        //  reference to an entity that expands to nothing, so
+                        //  note the reference along with comments and PIs.
+                        if (!fElemStack.isEmpty())
+                            fElemStack.setCommentOrPISeen();
+
                         // the reference separates what precedes it from what
                         // follows: "]]&ent;>" does not contain "]]>"
                         gotLeadingSurrogate = false;
